@@ -274,6 +274,9 @@ def variant (spec, mask = None, perm = None, tags = None, split = None):
                 g ['p1'], g ['p2'] = g ['p2'], g ['p1']
                 if g.get ('taper'):
                     g ['taper'] = [{1: 2, 2: 1, 3: 3} [g ['taper'][0]]] + g ['taper'][1:]
+            elif r and g ['k'] == 'a':
+                # an arc given from its other end: the same conductor
+                g ['a1'], g ['a2'] = g ['a2'], g ['a1']
     if perm and len (perm) == len (geo):
         s ['geo'] = [geo [i] for i in perm]
     if tags and len (tags) == len (s ['geo']):
